@@ -369,7 +369,7 @@ def execute(trace, ctx=None):
                 e = op['expiry']
                 if 'scalar' in e:
                     exp_scalar = dec(e['scalar'])
-                    if not allow and exp_scalar < today + datetime.timedelta(days=1) and any(kt not in supplied for kt in row_keys):
+                    if not allow and exp_scalar <= SimClock.now and any(kt not in supplied for kt in row_keys):
                         exp_scalar = None       # see below
                         res.stat('expiry-withheld(known finding not provoked)')
                     else:
@@ -380,7 +380,7 @@ def execute(trace, ctx=None):
                     for kk, v in rows:
                         # a past expiry for a key without a previous value provokes the recorded finding
                         # (expired-row-without-previous-value-not-computed); only a tenth of the runs do that on purpose
-                        if not allow and v is not None and v < today + datetime.timedelta(days=1) and kk not in supplied and not cfg.get('if_none'):
+                        if not allow and v is not None and v <= SimClock.now and kk not in supplied and not cfg.get('if_none'):
                             res.stat('expiry-withheld(known finding not provoked)')
                             continue
                         seen.setdefault(kk, v)
@@ -464,10 +464,10 @@ def execute(trace, ctx=None):
                     ec = 'none'
                 elif e < today:
                     ec = 'past'
-                elif e >= today + datetime.timedelta(days=1):
-                    ec = 'future'
+                elif e > SimClock.now:
+                    ec = 'future'         # not yet reached, whatever its date
                 else:
-                    ec = 'today'
+                    ec = 'today'          # today's date, at or before the current time: "in the past" or not is a matter of reading
                 has_prev = kt in supplied
                 klass.append('%s%d' % (ec[0], int(has_prev)))
                 idx = [j for j, c in enumerate(calls) if c == args and not used[j]]
@@ -628,7 +628,7 @@ RULE = ('one case = one seeded multi-day history on one long-lived perdictable: 
         'as data with rows withheld; non-trivial = at least 2 keyed calls and 2 evaluations of f and, in a fault configuration, at least one fired fault; '
         'distinct = distinct digest of (trace, observations)')
 ASSUMPTIONS = ['keys are unique inside each input table; an input, data and expiry table carry every key column',
-               'expiry falling on today\'s date: both "kept" and "recomputed" are accepted (the two code paths differ and the statement says "in the past")',
+               'expiry on today\'s date at or before the current time: both "kept" and "recomputed" are accepted (the two code paths differ and the statement says "in the past"); an expiry later than now must recompute',
                'two key columns: either lexicographic row order is accepted',
                'empty join: only "f is not called" is asserted',
                'calls in which every table input is outer-joined are not made with data/expiry keys outside the inputs\' keys (the statement is silent on whether those extend the key set)']
